@@ -122,6 +122,22 @@ pub struct KnownFinding {
 }
 
 pub fn load_known_findings(property: &str) -> Vec<KnownFinding> {
+    static CACHE: std::sync::Mutex<Option<BTreeMap<String, Vec<KnownFinding>>>> = std::sync::Mutex::new(None);
+    {
+        let g = CACHE.lock().unwrap_or_else(|e| e.into_inner());
+        if let Some(m) = g.as_ref() {
+            if let Some(v) = m.get(property) {
+                return v.clone();
+            }
+        }
+    }
+    let v = load_known_findings_uncached(property);
+    let mut g = CACHE.lock().unwrap_or_else(|e| e.into_inner());
+    g.get_or_insert_with(BTreeMap::new).insert(property.to_string(), v.clone());
+    v
+}
+
+fn load_known_findings_uncached(property: &str) -> Vec<KnownFinding> {
     let path = format!("{}/known_findings.json", verif_dir());
     let txt = match std::fs::read_to_string(&path) {
         Ok(t) => t,
@@ -310,6 +326,8 @@ pub struct Engine {
     pub start: Instant,
     pub replayed: u64,
     pub replay_only: bool,
+    /// suppress per-violation stderr output (fuzz targets)
+    pub quiet: bool,
 }
 
 pub struct RandomSpec {
@@ -355,6 +373,7 @@ impl Engine {
             start: Instant::now(),
             replayed: 0,
             replay_only: false,
+            quiet: false,
         }
     }
 
@@ -389,7 +408,9 @@ impl Engine {
             Mode::Run => self.write_replay(section, tape, index, &fl, &case),
             Mode::Replay { path, .. } => path.clone(),
         };
-        eprintln!("--- violation in section {}: [{}]\n{}\ncase: {}", section, fl.signature, fl.detail, case);
+        if !self.quiet {
+            eprintln!("--- violation in section {}: [{}]\n{}\ncase: {}", section, fl.signature, fl.detail, case);
+        }
         self.violations.push(Violation { section: section.to_string(), signature: fl.signature, detail: fl.detail, replay_path: path });
     }
 
